@@ -1,5 +1,32 @@
-(* Props/C08.v — every reachable Decimal is canonical (theorems to follow). *)
-From Coq Require Import ZArith.
-From Dec Require Import L3.Decimal.
+(* Props/C08.v — every reachable Decimal is in canonical normalized form.
+   Statements only.  WF (L3/Decimal.v, `wf_b`) is the canonical-form predicate:
+   non-zero leading digit, words below the base, no digit beyond the precision,
+   exponent in range.  `valid_op` (L3/StoreProofs.v) collects the documented
+   contracts and the resource bounds of one operation; operations for which
+   `valid_op` is False (Sub, FMA, SetRat, MantExp with an out-parameter, Gob
+   decoding) are NOT covered by the program-level theorem yet and are decided
+   by the correspondence run, which evaluates the same predicate on the
+   implementation's raw words after every step. *)
+From Coq Require Import ZArith List QArith.
+From Dec Require Import L3.Decimal L3.Cmp L3.CmpProofs L3.Round L3.Arith L3.Store L3.StoreProofs.
 Open Scope Z_scope.
-Example C08_examples : WF dec_zero. Proof. reflexivity. Qed.
+
+Theorem C08_step_invariant : forall s o, WFstore s -> valid_op s o ->
+  WFstore (fst (step s o)) /\ r_out (snd (step s o)) <> Crash.
+Proof. exact step_preserves_WF. Qed.
+Print Assumptions C08_step_invariant.
+
+(* all finite sequences of operations: by induction over the program *)
+Theorem C08_invariant : forall p s, WFstore s -> valid_prog s p ->
+  Forall (fun rs => WFstore (snd rs) /\ r_out (fst rs) <> Crash) (run s p).
+Proof. exact run_preserves_WF. Qed.
+Print Assumptions C08_invariant.
+
+(* numerically equal canonical Decimals compare equal (and conversely): C16_cmp; here the
+   consequence for the representation: a canonical finite value satisfies 0.1 <= mantissa < 1 *)
+Theorem C08_normalized : forall d, WFfin d -> (scaled 1 (exp d - 1) <= mag d < scaled 1 (exp d))%Q.
+Proof. exact mag_bounds. Qed.
+Print Assumptions C08_normalized.
+
+Example C08_examples : WF dec_zero /\ WFstore [dec_zero; mkDec [1000000000000000000] 1 1 ToNearestEven Exact Ffinite false].
+Proof. split; [reflexivity|repeat constructor]. Qed.
